@@ -398,10 +398,10 @@ oscore_validate_sender_seq(oscore_recipient_ctx_t *ctx, cose_encrypt0_t *cose) {
                   incoming_seq);
     return 0;
   } else { /* incoming_seq < last_seq */
-    uint64_t shift = ctx->last_seq - incoming_seq - 1;
+    uint64_t shift = ctx->last_seq - incoming_seq;
     uint64_t pattern;
 
-    if (shift > ctx->osc_ctx->replay_window_size || shift > 63) {
+    if (shift >= ctx->osc_ctx->replay_window_size || shift > 63) {
       coap_log_warn("OSCORE: Replay protection, SEQ outside of replay window (%"
                     PRIu64 " %" PRIu64 ")\n",
                     ctx->last_seq,
